@@ -398,8 +398,8 @@ def _is_symbolic(v):
     return isinstance(v, sp.Basic) and not v.is_number
 
 
-def r_solver(ctx: Ctx, model):
-    ctx.rule("H-solve: per pressure point one bounded minimisation of (exp(phi(l) [- sf]) - p_i)^2 on (bound, 50); one width per point")
+def r_solver(ctx: Ctx, model, prop="C17", rule="H-solve"):
+    ctx.rule(f"{rule}: per pressure point one bounded minimisation of (exp(phi(l) [- sf]) - p_i)^2 on (bound, 50); one width per point")
     for name, cy in (("_solve_hk", False), ("_solve_hk_cy", True)):
         I = mk(model)
         fi = model.func(f"{PMI}.{name}")
@@ -424,7 +424,7 @@ def r_solver(ctx: Ctx, model):
         for oc in outs:
             npaths += 1
             if oc.kind != "ok":
-                ctx.ob(False, Finding("C17.H-solve", fi.where, f"{name}|raises:{oc.exc.name}", f"{name} raises {oc.exc}"))
+                ctx.ob(False, Finding(f"{prop}.{rule}", fi.where, f"{name}|raises:{oc.exc.name}", f"{name} raises {oc.exc}"))
                 continue
             widths, cl = oc.value
             stops = [c for l_, c in oc.decisions if ">" in l_ and "<=" not in l_]
@@ -433,7 +433,7 @@ def r_solver(ctx: Ctx, model):
             ok = isinstance(widths, list) and len(widths) == k_stop and all(widths[i] == S(f"x{i}") for i in range(k_stop))
             # the path stopped either at the documented break (decision 0 at the last call) or after all points
             okstop = ((k_stop == NP) or (stops and stops[-1] == 0)) and not any(c == 0 for l_, c in others)
-            ctx.ob(ok and okstop, Finding("C17.H-solve", fi.where, f"{name}|one-width-per-point",
+            ctx.ob(ok and okstop, Finding(f"{prop}.{rule}", fi.where, f"{name}|one-width-per-point",
                                           f"{name} [{oc.decisions}]: {k_stop} minimisations, widths {widths}: each pressure point up to the documented stop "
                                           "must contribute exactly the minimiser of its own objective, in order"),
                    nontrivial_key=(name, tuple(stops)))
@@ -446,12 +446,12 @@ def r_solver(ctx: Ctx, model):
                 else:
                     want = (sp.exp(sp.Function("phi")(l)) - p.items[i])**2
                 okobj = decide_zero((c["objective"] - want).subs(sp.Function("phi")(l), sp.Symbol("PHI", real=True)))[0] == "zero"
-                ctx.ob(okobj, Finding("C17.H-solve", fi.where, f"{name}|objective",
+                ctx.ob(okobj, Finding(f"{prop}.{rule}", fi.where, f"{name}|objective",
                                       f"{name}: objective of point {i} is {c['objective']}; required {want}"),
                        nontrivial_key=(name, "obj", i), sample={"rule": "H-solve", "solver": name, "objective": str(c["objective"])} if i == 0 and npaths == 1 else None)
                 b = c["bounds"]
                 okb = isinstance(b, (tuple, list)) and len(b) == 2 and b[0] == S("bound") and b[1] == 50 and c["method"] == "bounded"
-                ctx.ob(okb, Finding("C17.H-solve", fi.where, f"{name}|bounds",
+                ctx.ob(okb, Finding(f"{prop}.{rule}", fi.where, f"{name}|bounds",
                                     f"{name}: point {i} is searched on {b} with method {c['method']!r}; required (bound, 50), 'bounded' - bounds that "
                                     "depend on earlier results make a width depend on the other points"),
                        nontrivial_key=(name, "bounds", i))
